@@ -17,7 +17,7 @@
 //        head: segments joined by '+', each hex bytes or $name (manifest URI of mk/put/accepted STORE sN)
 //        mode: full  = send head+body, half-close, read to EOF
 //              early = send head only, wait (<= 2 s) for a response; body sent only if none came
-//        -> <STATUS> <CODE> [size= ttl= fn=] [payload=] [early=] | st= mf= files= stop= ts= run=
+//        -> <STATUS> <CODE> [size= ttl=] [payload=] [early=] | st= mf= files= stop= ts= run=
 //   cli <tokhex|-> <CMD> <sel> [KEY=hexvalue ...] [payload=<hex>]   real ControlClient::send
 //        sel: * or KEY,KEY (printed subset)      -> ok=<0|1> n=<fields> F=K=hex;.. P=<none|len:hex16>
 //   list <tokhex|->        real client LIST + the CLI's print_list_response -> out=<lines joined by |> chunks=<n>
@@ -320,19 +320,11 @@ std::string do_req(int addr, const std::string& mode, const std::string& head_sp
     std::string out = r.status + " " + code;
     if (code == "OK_STORE") {
         ++accepted_stores;
-        std::string fn = "-";
         if (auto it = r.first_line_of.find("MANIFEST"); it != r.first_line_of.end()) {
             manifests["s" + std::to_string(accepted_stores)] = it->second;
-            try {
-                const auto m = protocol::decode_manifest(it->second);
-                if (auto f = m.metadata.find("filename"); f != m.metadata.end()) fn = hexs(f->second);
-            } catch (const std::exception&) {
-                fn = "undecodable";
-            }
         }
         out += " size=" + (r.first_line_of.count("SIZE") ? r.first_line_of.at("SIZE") : std::string("-"));
         out += " ttl=" + (r.first_line_of.count("TTL") ? r.first_line_of.at("TTL") : std::string("-"));
-        out += " fn=" + fn;
     }
     if (code == "OK_FETCH") {
         out += " size=" + (r.first_line_of.count("SIZE") ? r.first_line_of.at("SIZE") : std::string("-"));
